@@ -82,16 +82,33 @@ def run(chk):
       add(typedtree.replay_simulated(chk, kind, partial, f'C03_sim_avoid_{tag}.cfg', n2, d2, chk.seed + 1, model_of(kind, partial)))
   # the dict with accessor_writable=False: accessor-style writes are refused, methods keep working
   add(typedtree.replay_simulated(chk, 'dict', False, 'C03_sim_dictro.cfg', n1, d1, chk.seed + 2, model_ro))
+  # every mechanism must have been exercised with both outcomes; a sample that misses one is topped up (more behaviours,
+  # derived seeds) before the check is declared vacuous
+  names = ['DSet', 'DSetAttr', 'OSetAttr', 'Rebind1', 'DDel', 'DPop', 'DClear', 'DSetDefault', 'DUpdate', 'DIor', 'Rebind2',
+           'LSet', 'LRebindSet', 'LRebindAppend', 'LRebindInsert', 'LRebind2', 'LDel', 'LPop', 'LRemove', 'LClear',
+           'LDelSlice', 'LSetSlice', 'LAppend', 'LInsert', 'LExtend', 'LIadd', 'LImul', 'LDelSliceX', 'LSetSliceX',
+           'NSetExtAttr', 'NSetExtRebind', 'NLeaf', 'CtorOmit']
+
+  def missing():
+    m = [a + o for a in names for o in (':ok', ':err') if hits.get(a + o, 0) == 0]
+    if hits.get('DSet:perm', 0) + hits.get('DSetAttr:perm', 0) == 0 or hits.get('DDel:perm', 0) == 0:
+      m.append('perm')
+    return m
+
+  for extra in range(1, 5):
+    if not missing() or chk.violations:
+      break
+    chk.count('top_up_rounds')
+    for kind, partial, tag in KINDS:
+      add(typedtree.replay_simulated(chk, kind, partial, f'C03_sim_{tag}.cfg', n1 * (2 if kind == 'list2' else 1),
+                                     d1 * (2 if kind == 'list2' else 1), chk.seed + 1000 * extra, model_of(kind, partial)))
+    add(typedtree.replay_simulated(chk, 'dict', False, 'C03_sim_dictro.cfg', n1, d1, chk.seed + 1000 * extra + 2, model_ro))
   chk.require(hits.get('DSet:perm', 0) + hits.get('DSetAttr:perm', 0) > 0 and hits.get('DDel:perm', 0) > 0,
               'vacuous: no refused accessor-style write replayed')
   chk.notes['action_outcome_hits'] = dict(sorted(hits.items()))
   chk.require(hits.get('valid_write_rejected', 0) == 0,
               f'the code rejected {hits.get("valid_write_rejected", 0)} writes the specification accepts '
               f'(see valid_write_rejected in the evidence): TypedTree.tla no longer describes the code')
-  names = ['DSet', 'DSetAttr', 'OSetAttr', 'Rebind1', 'DDel', 'DPop', 'DClear', 'DSetDefault', 'DUpdate', 'DIor', 'Rebind2',
-           'LSet', 'LRebindSet', 'LRebindAppend', 'LRebindInsert', 'LRebind2', 'LDel', 'LPop', 'LRemove', 'LClear',
-           'LDelSlice', 'LSetSlice', 'LAppend', 'LInsert', 'LExtend', 'LIadd', 'LImul', 'LDelSliceX', 'LSetSliceX',
-           'NSetExtAttr', 'NSetExtRebind', 'NLeaf', 'CtorOmit']
   for a in names:
     chk.require(hits.get(a + ':ok', 0) > 0, f'vacuous: no accepted {a} replayed')
     chk.require(hits.get(a + ':err', 0) > 0, f'vacuous: no rejected {a} replayed')
